@@ -144,6 +144,12 @@ func Check(res *Result) []Violation {
 		}
 		if x.propagated != nil {
 			c.add("C04", "panic-propagated", "exec %d (%s): a panic escaped the directive: %v", x.idx, x.prog.Name, x.propagated)
+			// a directive that panics has not done what it describes either
+			if x.prog.Flow != nil {
+				c.add("C02", "directive-panicked", "exec %d (%s): the flow did not run: a panic escaped it: %v", x.idx, x.prog.Name, x.propagated)
+			} else {
+				c.add("C10", "directive-panicked", "exec %d (%s): Parallel did not run its functions: a panic escaped it: %v", x.idx, x.prog.Name, x.propagated)
+			}
 			continue
 		}
 		if x.maxInfl > x.limit() {
